@@ -323,7 +323,16 @@ type heldView struct {
 
 // runBufferCase drives one case; returns the observations, the final backing array and a violation ("" = none).
 func runBufferCase(c *ubCase, count func(string, int)) (obs []ubObs, arr []byte, viol string, at int) {
-	r := newUbRun(c)
+	cur := 0
+	var r *ubRun
+	defer func() {
+		// Len / Bytes of a buffer whose invariant (off <= len <= cap) is broken panic
+		if v := recover(); v != nil {
+			viol, at = fmt.Sprintf("after call %d (%s) the buffer is unusable: Len/Bytes panic: %v", cur, c.Ops[cur].Kind, v), cur
+			arr = r.b.VerifArray()
+		}
+	}()
+	r = newUbRun(c)
 	var q []byte
 	appendOnly := c.Init == nil
 	if c.Init != nil {
@@ -334,8 +343,8 @@ func runBufferCase(c *ubCase, count func(string, int)) (obs []ubObs, arr []byte,
 		return obs, r.b.VerifArray(), fmt.Sprintf("call %d (%s): ", i, c.Ops[i].Kind) + fmt.Sprintf(f, a...), i
 	}
 	for i, o := range c.Ops {
+		cur = i
 		off0, len0, cap0, _, base0 := r.b.VerifState()
-		_ = off0
 		x := r.step(i, o)
 		obs = append(obs, x)
 		count("ubuf_op_"+o.Kind, 1)
@@ -588,6 +597,11 @@ func runBufferCase(c *ubCase, count func(string, int)) (obs []ubObs, arr []byte,
 		}
 		if x.Changed {
 			count("ubuf_reallocations", 1)
+		} else if !isReadOnlyOp(o.Kind) && o.Kind != "vwrite" && !fits && off0 > 0 && x.Off == 0 && x.Len > 0 && x.Kind != "panic" {
+			count("ubuf_slides_or_empty_resets", 1)
+			if len0-off0 > 0 {
+				count("ubuf_slides_with_contents", 1)
+			}
 		}
 	}
 	return obs, r.b.VerifArray(), "", -1
@@ -599,7 +613,6 @@ func hexOf(b []byte) string { return hx(b) }
 
 func genBufferCase(r *vlib.RNG) *ubCase {
 	c := &ubCase{Type: "util_buffer"}
-	capNow, lenNow, offNow := 0, 0, 0 // a rough mirror, only to aim at boundaries
 	if r.Chance(2, 5) {
 		cp := []int{0, 1, 3, 8, 16, 40, 64, 65, 200, 600}[r.Intn(10)]
 		arr := r.Bytes(cp, nil)
@@ -614,25 +627,33 @@ func genBufferCase(r *vlib.RNG) *ubCase {
 			Arr string `json:"arr"`
 			Len int    `json:"len"`
 		}{hexOf(arr), ln}
-		capNow, lenNow = cp, ln
 	}
+	// the generator aims at the boundaries of the buffer it is driving (reslice / slide / reallocate decision)
+	run := newUbRun(c)
 	alphabet := []byte("abc\n")
 	nops := r.Range(6, 36)
 	var viewSteps []int
 	for i := 0; i < nops; i++ {
+		offNow, lenNow, capNow, _, _ := run.b.VerifState()
 		m := lenNow - offNow
+		pos := func(n int) int {
+			if n < 0 {
+				return 0
+			}
+			return n
+		}
 		sizeNear := func() int {
-			switch r.Pick(30, 10, 10, 10, 10, 10, 10, 10) {
+			switch r.Pick(30, 10, 10, 12, 10, 8, 10, 10) {
 			case 0:
 				return r.Intn(12)
 			case 1:
-				return capNow - lenNow
+				return pos(capNow - lenNow)
 			case 2:
-				return capNow - lenNow + 1
+				return pos(capNow - lenNow + 1)
 			case 3:
-				return capNow/2 - m
+				return pos(capNow/2 - m)
 			case 4:
-				return capNow/2 - m + 1
+				return pos(capNow/2 - m + 1)
 			case 5:
 				return 0
 			case 6:
@@ -640,36 +661,27 @@ func genBufferCase(r *vlib.RNG) *ubCase {
 			}
 			return 1
 		}
-		pos := func(n int) int {
-			if n < 0 {
-				return 0
-			}
-			return n
+		consume := func() int { // how much to read: often most, but not all, of the contents
+			return pos([]int{0, 1, 2, m, m + 1, m / 2, 5, m - 1, m - 2, m * 3 / 4, m * 7 / 8}[r.Pick(2, 4, 3, 4, 2, 4, 2, 5, 4, 4, 4)])
 		}
 		var o ubOp
 		switch r.Pick(14, 5, 8, 4, 4, 8, 6, 4, 4, 3, 3, 5, 3, 3, 3, 4, 3) {
 		case 0:
-			n := pos(sizeNear())
-			o = ubOp{Kind: "write", P: hexOf(r.Bytes(n, alphabet))}
-			lenNow += n
+			o = ubOp{Kind: "write", P: hexOf(r.Bytes(sizeNear(), alphabet))}
 		case 1:
 			o = ubOp{Kind: "writebyte", C: int(alphabet[r.Intn(len(alphabet))])}
-			lenNow++
 		case 2:
-			n := pos(sizeNear())
-			switch r.Pick(40, 1, 1) {
+			n := sizeNear()
+			switch r.Pick(60, 1, 1) {
 			case 1:
 				n = -1 - r.Intn(3)
 			case 2:
 				n = []int{1 << 50, 1<<63 - 1, 1<<63 - 70, 1 << 62}[r.Intn(4)]
 			}
 			o = ubOp{Kind: "alloc", N: n}
-			if n > 0 && n < hugeN {
-				lenNow += n
-			}
 		case 3:
-			n := pos(sizeNear())
-			switch r.Pick(30, 1, 1) {
+			n := sizeNear()
+			switch r.Pick(40, 1, 1) {
 			case 1:
 				n = -1 - r.Intn(3)
 			case 2:
@@ -679,36 +691,36 @@ func genBufferCase(r *vlib.RNG) *ubCase {
 		case 4:
 			o = ubOp{Kind: "bytes"}
 		case 5:
-			k := []int{0, 1, 2, m, m + 1, m / 2, 5}[r.Intn(7)]
-			o = ubOp{Kind: "read", N: pos(k)}
-			offNow += pos(k)
+			o = ubOp{Kind: "read", N: consume()}
 		case 6:
-			n := []int{0, 1, m, m + 3, m / 2, 2, -1}[r.Pick(3, 6, 3, 3, 6, 6, 1)]
+			n := consume()
+			if r.Chance(1, 60) {
+				n = -1
+			}
 			o = ubOp{Kind: "next", N: n}
-			offNow += pos(n)
 		case 7:
 			o = ubOp{Kind: "readbyte"}
-			offNow++
 		case 8:
 			o = ubOp{Kind: "readbytes", C: int(alphabet[r.Intn(len(alphabet))])}
 		case 9:
-			n := []int{0, m, m / 2, 1, m + 1, -1}[r.Pick(4, 4, 8, 4, 1, 1)]
+			n := []int{0, m, m / 2, 1, m + 1, -1}[r.Pick(4, 4, 10, 4, 1, 1)]
+			if n == 1 && m == 0 {
+				n = 0
+			}
 			o = ubOp{Kind: "truncate", N: n}
 		case 10:
 			o = ubOp{Kind: "reset"}
-			lenNow, offNow = 0, 0
 		case 11:
 			k := r.Intn(5)
 			for j := 0; j < k; j++ {
 				n := []int{0, 1, 7, 100, 511, 512, 513, 700}[r.Pick(6, 5, 6, 4, 2, 3, 1, 1)]
 				el := ubRd{D: hexOf(r.Bytes(n, alphabet)), E: []int{0, 1, 3, 4}[r.Pick(12, 3, 1, 1)]}
-				if r.Chance(1, 60) {
+				if r.Chance(1, 80) {
 					el = ubRd{Neg: true}
 				}
 				o.Sc = append(o.Sc, el)
 			}
-			o.Kind, o.Zeros = "readfrom", r.Chance(1, 25)
-			capNow = 0 // unknown from here on
+			o.Kind, o.Zeros = "readfrom", r.Chance(1, 30)
 		case 12:
 			n := []int{m, m, m / 2, 0, m + 1}[r.Pick(8, 4, 4, 2, 1)]
 			o = ubOp{Kind: "writeto", N: pos(n), E: []int{0, 0, 0, 3, 5}[r.Intn(5)]}
@@ -717,62 +729,29 @@ func genBufferCase(r *vlib.RNG) *ubCase {
 		case 14:
 			o = ubOp{Kind: "len"}
 		case 15:
-			if len(viewSteps) == 0 {
-				o = ubOp{Kind: "len"}
-			} else {
-				o = ubOp{Kind: "vwrite", Step: viewSteps[r.Intn(len(viewSteps))], Pos: r.Intn(3), P: hexOf(r.Bytes(r.Range(1, 4), []byte("XYZ")))}
+			o = ubOp{Kind: "len"}
+			if len(viewSteps) > 0 {
+				st := viewSteps[r.Intn(len(viewSteps))]
+				if p := r.Intn(3); p <= len(run.held[st]) {
+					o = ubOp{Kind: "vwrite", Step: st, Pos: p, P: hexOf(r.Bytes(r.Range(1, 4), []byte("XYZ")))}
+				}
 			}
 		default:
-			if len(viewSteps) == 0 {
-				o = ubOp{Kind: "string"}
-			} else {
+			o = ubOp{Kind: "string"}
+			if len(viewSteps) > 0 {
 				o = ubOp{Kind: "vread", Step: viewSteps[r.Intn(len(viewSteps))]}
 			}
 		}
-		if o.Kind == "bytes" || o.Kind == "next" || o.Kind == "alloc" {
+		x := run.step(i, o)
+		c.Ops = append(c.Ops, o)
+		if x.Kind == "view" {
 			viewSteps = append(viewSteps, i)
 		}
-		if offNow > lenNow {
-			offNow = lenNow
-		}
-		if lenNow > capNow {
-			capNow = 2*capNow + (lenNow - capNow)
-			if capNow < 64 {
-				capNow = 64
-			}
-		}
-		c.Ops = append(c.Ops, o)
-	}
-	return c
-}
-
-// vwrite positions must lie inside the slice actually returned: fix the case up against the real run (the generator does
-// not know the lengths), dropping stores that would panic in the harness itself.
-func sanitizeBufferCase(c *ubCase) {
-	r := newUbRun(c)
-	var ops []ubOp
-	remap := map[int]int{}
-	for i, o := range c.Ops {
-		if o.Kind == "vwrite" || o.Kind == "vread" {
-			ns, ok := remap[o.Step]
-			if !ok {
-				continue
-			}
-			o.Step = ns
-			if o.Kind == "vwrite" && o.Pos > len(r.held[ns]) {
-				continue
-			}
-		}
-		x := r.step(len(ops), o)
-		if x.Kind == "view" {
-			remap[i] = len(ops)
-		}
-		ops = append(ops, o)
 		if x.Kind == "panic" || x.Kind == "diverge" {
 			break
 		}
 	}
-	c.Ops = ops
+	return c
 }
 
 // ---- (K) rendering ----
@@ -925,6 +904,11 @@ func inRangeGo(rg *util.Range, k []byte) bool {
 }
 
 func runPrefixCase(c *prefixCase, count func(string, int)) (kcase string, viol string) {
+	defer func() {
+		if v := recover(); v != nil {
+			viol = fmt.Sprintf("BytesPrefix(%s) panics: %v", c.P, v)
+		}
+	}()
 	p := unhx(c.P)
 	if c.P == "" && len(c.Probes)%2 == 0 {
 		p = nil
@@ -940,13 +924,13 @@ func runPrefixCase(c *prefixCase, count func(string, int)) (kcase string, viol s
 	for _, h := range c.Probes {
 		k := unhx(h)
 		in := inRangeGo(rg, k)
-		if in != bytes.HasPrefix(k, p) {
-			return "", fmt.Sprintf("BytesPrefix(%x) = [%x, %x): key %x in range = %v, has the prefix = %v", p, rg.Start, rg.Limit, k, in, bytes.HasPrefix(k, p))
+		if in != bytes.HasPrefix(k, p) && viol == "" {
+			viol = fmt.Sprintf("BytesPrefix(%x) = [%x, %x): key %x in range = %v, has the prefix = %v", p, rg.Start, rg.Limit, k, in, bytes.HasPrefix(k, p))
 		}
 		probes = append(probes, fmt.Sprintf("(%s, %s)", vlib.CoqHex(k), vlib.CoqBool(in)))
 		count("prefix_probes", 1)
 	}
-	return fmt.Sprintf("KUPrefix %s %s [%s]", vlib.CoqHex(p), vlib.CoqOptHex(rg.Limit), strings.Join(probes, "; ")), ""
+	return fmt.Sprintf("KUPrefix %s %s [%s]", vlib.CoqHex(p), vlib.CoqOptHex(rg.Limit), strings.Join(probes, "; ")), viol
 }
 
 // ---- BufferPool ----
@@ -1013,6 +997,11 @@ func specClass(baseline [5]int, n int) int {
 // runPoolCase: every slice is Put at most once while the harness does not hold it again, so two Gets must never
 // return the same array; classes and capacities follow the documented bounds.
 func runPoolCase(c *poolCase, count func(string, int)) (kcases []string, viol string) {
+	defer func() {
+		if v := recover(); v != nil {
+			viol = fmt.Sprintf("the pool panics: %v", v)
+		}
+	}()
 	p := util.NewBufferPool(c.Baseline)
 	bl := p.VerifBaseline()
 	want := [5]int{c.Baseline / 4, c.Baseline / 2, c.Baseline, c.Baseline * 2, c.Baseline * 4}
@@ -1025,8 +1014,8 @@ func runPoolCase(c *poolCase, count func(string, int)) (kcases []string, viol st
 		for d := -1; d <= 1; d++ {
 			if n := b + d; n >= 0 {
 				cl := p.VerifPoolNum(n)
-				if cl != specClass(want, n) {
-					return nil, fmt.Sprintf("baseline %d: poolNum(%d) = %d, the smallest class whose bound holds %d is %d", c.Baseline, n, cl, n, specClass(want, n))
+				if cl != specClass(want, n) && viol == "" {
+					viol = fmt.Sprintf("baseline %d: poolNum(%d) = %d, the smallest class whose bound holds %d is %d", c.Baseline, n, cl, n, specClass(want, n))
 				}
 				probes = append(probes, fmt.Sprintf("(%d, %d%%nat)", n, cl))
 				count("pool_num_probes", 1)
@@ -1034,6 +1023,9 @@ func runPoolCase(c *poolCase, count func(string, int)) (kcases []string, viol st
 		}
 	}
 	kcases = append(kcases, fmt.Sprintf("KUPoolNum %d [%s]", c.Baseline, strings.Join(probes, "; ")))
+	if viol != "" {
+		return kcases, viol
+	}
 	ids := map[uintptr]int{} // array address -> identity
 	var keep [][]byte        // every array stays alive: addresses are never reused
 	var bufs [][]byte        // slices obtained by Get, in order
@@ -1215,7 +1207,6 @@ func runUtil(a vlib.Args, res *vlib.Result, r *vlib.RNG) []string {
 	nk := 0
 	for i := 0; i < b.pBuf && res.NViolations() < 5; i++ {
 		c := genBufferCase(rb.Fork())
-		sanitizeBufferCase(c)
 		obs, arr, viol, at := runBufferCase(c, count)
 		key, _ := json.Marshal(c.Ops)
 		res.Eval("ubuf:"+string(key), len(c.Ops) >= 4)
@@ -1223,6 +1214,12 @@ func runUtil(a vlib.Args, res *vlib.Result, r *vlib.RNG) []string {
 			c.Expected = "util.Buffer behaves as a byte queue; returned slices keep their bytes as Props/C13U.v states"
 			c.Observed, c.AtOp = viol, at
 			res.Violate("util.Buffer: "+viol, c)
+			// the model is asked about the calls made so far all the same
+			if len(obs) > 0 && len(obs) <= len(c.Ops) {
+				if s := coqBufferCase(c, obs, arr); len(s) <= b.kBufMaxText {
+					kcases = append(kcases, s)
+				}
+			}
 			continue
 		}
 		if nk < b.kBuf {
@@ -1242,6 +1239,9 @@ func runUtil(a vlib.Args, res *vlib.Result, r *vlib.RNG) []string {
 		if viol != "" {
 			c.Expected, c.Observed = "a key lies in BytesPrefix(p) exactly when it has the prefix p", viol
 			res.Violate("BytesPrefix: "+viol, c)
+			if k != "" {
+				kcases = append(kcases, k)
+			}
 			continue
 		}
 		if i < b.kPrefix {
@@ -1257,6 +1257,7 @@ func runUtil(a vlib.Args, res *vlib.Result, r *vlib.RNG) []string {
 		if viol != "" {
 			c.Expected, c.Observed = "Get(n): len n, cap >= n, class bounds as documented; a slice Put once has one owner", viol
 			res.Violate("util.BufferPool: "+viol, c)
+			kcases = append(kcases, ks...)
 			continue
 		}
 		if i < b.kPool {
